@@ -7,6 +7,8 @@ T=${1:-quick}
 miss=0
 for d in seeded/*/; do
 	id=$(basename "$d"); p=${id%%-*}
+	# a change written for one property may belong to another one's statement (seeded/<id>/check_with names it)
+	[ -f "$d/check_with" ] && p=$(cat "$d/check_with")
 	out=$(tools/try_mutant.sh "$d" "$p" "$T" 2>&1)
 	case "$out" in
 	*"exit=1:"*) echo "DETECTED $id" ;;
